@@ -8,6 +8,7 @@ import (
 	"path/filepath"
 	"strconv"
 	"strings"
+	"sync/atomic"
 	"testing"
 	"time"
 
@@ -82,6 +83,23 @@ type procRow struct {
 	Canceled     bool   `json:"canceled"`     // ... as canceled
 	OtherAlive   bool   `json:"otherAlive"`   // the processes of the other job are untouched
 	SurvivorPids string `json:"survivorPids"`
+	StallMs      int    `json:"stallMs"` // worst oversleep of a 5 ms sleeper while waiting for the report (scheduling latency of the machine)
+}
+
+// stall meter: how late does a goroutine that sleeps 5 ms wake up (a loaded machine is not a slow cancel)
+var stallMaxUs atomic.Int64
+
+func init() {
+	go func() {
+		for {
+			t := time.Now()
+			time.Sleep(5 * time.Millisecond)
+			over := time.Since(t) - 5*time.Millisecond
+			if us := over.Microseconds(); us > stallMaxUs.Load() {
+				stallMaxUs.Store(us)
+			}
+		}
+	}()
 }
 
 func TestProcs(t *testing.T) {
@@ -136,6 +154,7 @@ func TestProcs(t *testing.T) {
 				if inst == "late" {
 					time.Sleep(120 * time.Millisecond)
 				}
+				stallMaxUs.Store(0)
 				t0 := time.Now()
 				if err := r.pr.CancelJob(job.ID); err != nil {
 					t.Fatal(err)
@@ -143,6 +162,7 @@ func TestProcs(t *testing.T) {
 				row := procRow{Shape: s.Name, Trigger: trig, IgnInt: s.IgnInt, Detached: s.Detached, Instant: inst, Started: started, TimeoutMs: int(killTimeout / time.Millisecond)}
 				row.Reported = r.waitDone(job.ID, killTimeout+5*time.Second)
 				row.ElapsedMs = int(time.Since(t0) / time.Millisecond)
+				row.StallMs = int(stallMaxUs.Load() / 1000)
 				at := marked(marker)
 				row.AtReport = len(at)
 				time.Sleep(250 * time.Millisecond)
@@ -169,12 +189,14 @@ func TestProcs(t *testing.T) {
 		job, _ := r.pr.ScheduleAsync("s"+strconv.Itoa(i), prunner.ScheduleOpts{})
 		started := waitMarked(marker, s.Procs, 10*time.Second)
 		ctx, cancel := context.WithCancel(context.Background())
+		stallMaxUs.Store(0)
 		t0 := time.Now()
 		go func() { time.Sleep(30 * time.Millisecond); cancel() }()
 		_ = r.pr.Shutdown(ctx)
 		row := procRow{Shape: s.Name, Trigger: "forced-shutdown", IgnInt: s.IgnInt, Detached: s.Detached, Instant: "early", Started: started, TimeoutMs: int(killTimeout / time.Millisecond)}
 		row.Reported = r.view(job.ID).Completed
 		row.ElapsedMs = int(time.Since(t0) / time.Millisecond)
+		row.StallMs = int(stallMaxUs.Load() / 1000)
 		row.AtReport = len(marked(marker)) + len(marked(run+"-other"))
 		time.Sleep(250 * time.Millisecond)
 		after := append(marked(marker), marked(run+"-other")...)
